@@ -9,15 +9,15 @@ import (
 	"golang.org/x/tools/go/ssa"
 )
 
-// symheap.go: a tiny symbolic executor for list-surgery functions: straight-line field loads and stores on pointer
-// parameters with nil tests. Objects are symbols (the parameters, and the initial contents of the fields that are read
-// before they are written); every path to a return yields a final heap.
+// symheap.go: a tiny symbolic executor for list-surgery functions: field loads and stores on pointer parameters with
+// nil tests and pointer comparisons; calls of small module helpers are executed in place. Objects are symbols (the
+// parameters, and the initial contents "x.f@0" of the fields that are read before they are written); every path to a
+// return yields a final heap.
 
 type symState struct {
-	heap   map[string]string // "obj.field" -> symbol
-	isNil  map[string]bool   // symbol -> known nil / non-nil
-	vals   map[ssa.Value]string
-	reason string
+	heap  map[string]string // "obj.field" -> symbol
+	isNil map[string]bool   // symbol -> known nil / non-nil
+	vals  map[ssa.Value]string
 }
 
 func (s *symState) clone() *symState {
@@ -41,37 +41,41 @@ func symExec(fn *ssa.Function) ([]*symState, string) {
 		s0.vals[prm] = prm.Name()
 		s0.isNil[prm.Name()] = false
 	}
+	return symExecFrom(fn, s0, 0)
+}
+
+func symExecFrom(fn *ssa.Function, s0 *symState, depth int) ([]*symState, string) {
 	var out []*symState
 	why := ""
-	var run func(b, pred *ssa.BasicBlock, s *symState, steps int)
 	val := func(s *symState, v ssa.Value) (string, bool) {
 		if isNilConst(v) {
 			return "nil", true
 		}
-		if x, ok := s.vals[v]; ok {
-			return x, true
-		}
-		return "", false
+		x, ok := s.vals[v]
+		return x, ok
 	}
-	run = func(b, pred *ssa.BasicBlock, s *symState, steps int) {
-		if steps > 40 || why != "" {
-			if why == "" {
-				why = "too many blocks on a path"
-			}
+	var exec func(b *ssa.BasicBlock, idx int, pred *ssa.BasicBlock, s *symState, steps int)
+	exec = func(b *ssa.BasicBlock, idx int, pred *ssa.BasicBlock, s *symState, steps int) {
+		if why != "" {
 			return
 		}
-		for _, in := range b.Instrs {
+		if steps > 60 {
+			why = "too many blocks on a path"
+			return
+		}
+		for i := idx; i < len(b.Instrs); i++ {
+			in := b.Instrs[i]
 			switch x := in.(type) {
 			case *ssa.DebugRef:
 			case *ssa.Phi:
 				for k, p := range b.Preds {
 					if p == pred {
-						if v, ok := val(s, x.Edges[k]); ok {
-							s.vals[x] = v
-						} else {
+						v, ok := val(s, x.Edges[k])
+						if !ok {
 							why = "phi of an unknown value"
 							return
 						}
+						s.vals[x] = v
 					}
 				}
 			case *ssa.FieldAddr:
@@ -108,63 +112,54 @@ func symExec(fn *ssa.Function) ([]*symState, string) {
 				}
 				s.heap[a[1:]] = v
 			case *ssa.BinOp:
-				if (x.Op != token.EQL && x.Op != token.NEQ) || !(isNilConst(x.Y) || isNilConst(x.X)) {
-					// pointer equality between two symbols
-					if x.Op == token.EQL || x.Op == token.NEQ {
-						a, ok1 := val(s, x.X)
-						bb, ok2 := val(s, x.Y)
-						if ok1 && ok2 {
-							s.vals[x] = "cmp:" + x.Op.String() + ":" + a + ":" + bb
-							continue
-						}
-					}
-					why = "comparison outside nil tests"
+				if x.Op != token.EQL && x.Op != token.NEQ {
+					why = "comparison outside pointer tests"
 					return
 				}
-				o := x.X
-				if isNilConst(o) {
-					o = x.Y
-				}
-				v, ok := val(s, o)
-				if !ok {
-					why = "nil test of an unknown value"
+				a, ok1 := val(s, x.X)
+				bb, ok2 := val(s, x.Y)
+				if !ok1 || !ok2 {
+					why = "comparison of an unknown value"
 					return
 				}
-				s.vals[x] = "nil?" + x.Op.String() + ":" + v
+				s.vals[x] = "cmp\x00" + x.Op.String() + "\x00" + a + "\x00" + bb
 			case *ssa.If:
 				cv := s.vals[x.Cond]
+				if !strings.HasPrefix(cv, "cmp\x00") {
+					why = "branch on an unknown condition"
+					return
+				}
+				parts := strings.SplitN(cv, "\x00", 4)
+				op, a, bb := parts[1], parts[2], parts[3]
 				for k := 0; k < 2; k++ {
 					s2 := s.clone()
+					wantEq := (op == "==") == (k == 0)
 					feasible := true
-					if strings.HasPrefix(cv, "nil?") {
-						parts := strings.SplitN(cv[4:], ":", 2)
-						op, sym := parts[0], parts[1]
-						wantNil := (op == "==") == (k == 0)
+					switch {
+					case a == "nil" || bb == "nil":
+						sym := a
+						if a == "nil" {
+							sym = bb
+						}
 						if sym == "nil" {
-							feasible = wantNil
+							feasible = wantEq
 						} else if known, ok := s2.isNil[sym]; ok {
-							feasible = known == wantNil
+							feasible = known == wantEq
 						} else {
-							s2.isNil[sym] = wantNil
+							s2.isNil[sym] = wantEq
 						}
-					} else if strings.HasPrefix(cv, "cmp:") {
-						parts := strings.SplitN(cv[4:], ":", 3)
-						eq := parts[1] == parts[2]
-						want := (parts[0] == "==") == (k == 0)
-						if eq != want && (parts[1] == parts[2]) {
-							feasible = false
-						}
-					} else {
-						why = "branch on an unknown condition"
-						return
+					case a == bb:
+						feasible = wantEq
+					default:
+						// two different symbols: both outcomes are possible (no alias assumptions)
 					}
 					if feasible {
-						run(b.Succs[k], b, s2, steps+1)
+						exec(b.Succs[k], 0, b, s2, steps+1)
 					}
 				}
 				return
 			case *ssa.Jump:
-				run(b.Succs[0], b, s, steps+1)
+				exec(b.Succs[0], 0, b, s, steps+1)
 				return
 			case *ssa.Return:
 				if len(x.Results) == 1 {
@@ -174,13 +169,47 @@ func symExec(fn *ssa.Function) ([]*symState, string) {
 				}
 				out = append(out, s)
 				return
+			case *ssa.Call:
+				g := calleeFn(x.Common())
+				if g == nil || !isModFn(g) || g.Blocks == nil || depth > 2 || len(g.Params) != len(x.Call.Args) {
+					why = "call that cannot be executed in place"
+					return
+				}
+				sub := s.clone()
+				sub.vals = map[ssa.Value]string{}
+				for k, prm := range g.Params {
+					a, ok := val(s, x.Call.Args[k])
+					if !ok {
+						why = "call with an unknown argument"
+						return
+					}
+					sub.vals[prm] = a
+				}
+				finals, w := symExecFrom(g, sub, depth+1)
+				if w != "" {
+					why = w
+					return
+				}
+				for _, fs := range finals {
+					cont := fs.clone()
+					cont.vals = map[ssa.Value]string{}
+					for k, v := range s.vals {
+						cont.vals[k] = v
+					}
+					if rv, ok := cont.heap["$ret"]; ok {
+						cont.vals[x] = rv
+						delete(cont.heap, "$ret")
+					}
+					exec(b, i+1, pred, cont, steps+1)
+				}
+				return
 			default:
 				why = fmt.Sprintf("instruction %T", in)
 				return
 			}
 		}
 	}
-	run(fn.Blocks[0], nil, s0, 0)
+	exec(fn.Blocks[0], 0, nil, s0, 0)
 	if why != "" {
 		return nil, why
 	}
